@@ -153,10 +153,14 @@ pub open spec fn frame(a: VM, b: VM) -> bool {
 //@   subst "env: &RefCell<Environment<O, E>>," => "env: &VEnv,"
 //@   subst "where O: std::io::Write + Clone, E: std::io::Write + Clone," => ""
 //@   subst "env.borrow().get_env_vars_tuple()" => "env.get_env_vars_tuple()"
-//@   subst "self.self_stack.last().cloned()" => "verif_last_cloned(&self.self_stack)"
+//@   subst? "self.self_stack.last().cloned()" => "verif_last_cloned(&self.self_stack)"
+//@   subst? "self.self_stack.first().cloned()" => "verif_first_cloned(&self.self_stack)"
 //@   ret r
 //@   sig <<<
         ensures
+            // `self` is the base of the INNERMOST enclosing copy expression (the last one pushed), an error outside of one
+            (name@ == "self"@ && self.self_stack@.len() > 0) ==> r == Ok::<(Rc<Value>, Position), Error>(self.self_stack@.last()),
+            (name@ == "self"@ && self.self_stack@.len() == 0) ==> r is Err,
             (name@ == "env"@ && !self.symbols.curr@.contains_key(name@)) ==> (r matches Ok((v, _)) && is_env_tuple(*v, env.env_vars.entries())),
             (name@ != "self"@ && self.symbols.curr@.contains_key(name@)) ==> r == Ok::<(Rc<Value>, Position), Error>(self.symbols.curr@[name@]),
             (name@ != "self"@ && name@ != "env"@ && !self.symbols.curr@.contains_key(name@)) ==> r is Err,
@@ -165,6 +169,7 @@ pub open spec fn frame(a: VM, b: VM) -> bool {
         proof { reveal_strlit("self"); reveal_strlit("env"); assert("self"@.len() == 4 && "env"@.len() == 3); }
 //@   >>>
 //@   mutant env_shadowing_ignored "if candidate.is_some() {" => "if false && candidate.is_some() {" expect get_binding
+//@   mutant self_is_outermost_base "self.self_stack.last().cloned()" => "self.self_stack.first().cloned()" expect get_binding
 //@ end
 
 // Vec::last().cloned() on (Rc<Value>, Position) pairs (tuple clone; R9' model)
@@ -172,6 +177,11 @@ pub open spec fn frame(a: VM, b: VM) -> bool {
 pub fn verif_last_cloned(v: &Vec<(Rc<Value>, Position)>) -> (r: Option<(Rc<Value>, Position)>)
     ensures v@.len() > 0 ==> r == Some(v@.last()), v@.len() == 0 ==> r is None
 { v.last().cloned() }
+
+#[verifier::external_body]
+pub fn verif_first_cloned(v: &Vec<(Rc<Value>, Position)>) -> (r: Option<(Rc<Value>, Position)>)
+    ensures v@.len() > 0 ==> r == Some(v@.first()), v@.len() == 0 ==> r is None
+{ v.first().cloned() }
 
 //@ extract src/build/opcode/vm.rs :: impl VM :: fn op_deref
 //@   subst "fn op_deref<O, E>(" => "fn op_deref("
